@@ -204,6 +204,8 @@ class Inotify:
             self._close_resources()
             raise
         self._moved_from_events: dict[int, InotifyEvent] = {}
+        # Watch descriptors of watched directories whose IN_MOVED_FROM has not been matched yet.
+        self._moved_from_wds: dict[int, int] = {}
 
     @property
     def event_mask(self) -> int:
@@ -267,7 +269,7 @@ class Inotify:
             if inotify_rm_watch(self._inotify_fd, wd) == -1:
                 Inotify._raise_error()
 
-    def remove_watches_below(self, path: bytes) -> None:
+    def remove_watches_below(self, path: bytes, *, cookie: int | None = None) -> None:
         """Stops watching the directory at ``path`` and everything below it.
 
         Used for a directory that has been moved out of the watched tree: its
@@ -276,10 +278,19 @@ class Inotify:
 
         :param path:
             Path of the directory that left the tree.
+        :param cookie:
+            Cookie of the unmatched IN_MOVED_FROM event, if that is how the directory left: the
+            directory is then looked up by its watch descriptor, because one of its parents may
+            have been renamed since, and nothing is done if the move has been matched meanwhile.
         """
         with self._lock:
             if self._closed:
                 return
+            if cookie is not None:
+                wd = self._moved_from_wds.pop(cookie, None)
+                if wd is None or wd not in self._path_for_wd:
+                    return
+                path = self._path_for_wd[wd]
             prefix = path + os.path.sep.encode()
             for _path in [p for p in self._wd_for_path if p == path or p.startswith(prefix)]:
                 wd = self._wd_for_path.pop(_path)
@@ -377,8 +388,11 @@ class Inotify:
 
                 if inotify_event.is_moved_from:
                     self.remember_move_from_event(inotify_event)
+                    if inotify_event.src_path in self._wd_for_path:
+                        self._moved_from_wds[cookie] = self._wd_for_path[inotify_event.src_path]
                 elif inotify_event.is_moved_to:
                     move_src_path = self.source_for_move(inotify_event)
+                    self._moved_from_wds.pop(cookie, None)
                     if move_src_path in self._wd_for_path:
                         moved_wd = self._wd_for_path[move_src_path]
                         del self._wd_for_path[move_src_path]
